@@ -2161,6 +2161,21 @@ func (c *Conn) handleApplicationDataRecord(
 		}, dtlserrors.ErrApplicationDataEpochZero
 	}
 
+	if c.handshakeEstablished != nil && !c.isHandshakeCompletedSuccessfully() {
+		// The peer completed first and its data overtook its final flight (or was queued until
+		// the keys were there). Nobody can Read before the handshake has returned, so waiting for
+		// room would park the goroutine that has to process that final flight: the handshake
+		// would never complete. Hand the record over if there is room, drop it otherwise.
+		select {
+		case c.decrypted <- content.Data:
+			return prepared.markPacketAsValid(), packetOutcome{}, nil
+		default:
+			c.log.Debug("dropped application data received before the handshake completed: receive queue is full")
+
+			return false, packetOutcome{}, nil
+		}
+	}
+
 	isLatestSeqNum := prepared.markPacketAsValid()
 	select {
 	case c.decrypted <- content.Data:
